@@ -1,8 +1,10 @@
 (** One entry point for the extracted model runner: component number, numbers in, numbers out. *)
-From Remoc Require Import Lib.Base Run.RunCodec.
+From Remoc Require Import Lib.Base Run.RunCodec Run.RunRobsMap Run.RunRobsSet.
 
 Definition run (comp : N) (inp : list N) : list N :=
   match comp with
   | 9 => run_codec inp
+  | 134 => run_robs_map inp
+  | 135 => run_robs_set inp
   | _ => [97]
   end.
